@@ -141,7 +141,7 @@ def compare(cid, src, star_events, py):
 def run(tier):
     rep = Report("C01", tier)
     s = seed()
-    n = 2500 if tier == "quick" else 60000
+    n = 2500 if tier == "quick" else common.tscale(60000)
     flavors = ["dbg"] if tier == "quick" else ["dbg", "rel"]
     cases, srcs = gen_cases(n, s, tier)
     log("[C01] %d programs x 2 forms" % n)
